@@ -41,6 +41,8 @@ pub struct DriveOpts {
     pub sweep: u64,
     /// number of marathon sessions (70k..80k requests each)
     pub marathon: u64,
+    /// number of name-flood sessions (pairs: flood -> victims / victims -> flood -> victims)
+    pub flood: u64,
     /// the sweep sessions and the first N ordinary sessions also write (request, output) pairs
     /// to <out>/dump/<idx>.jsonl for the rustc-parser engine
     pub dump_sessions: u64,
@@ -213,6 +215,7 @@ pub fn drive(o: &DriveOpts) -> Result<DriveSummary, String> {
     let ids: Vec<u64> = (0..o.marathon)
         .map(|k| crate::session::MARATHON_BASE + k)
         .chain((0..o.sweep).map(|k| crate::session::SWEEP_BASE + k))
+        .chain((0..o.flood).map(|k| crate::session::FLOOD_BASE + k))
         .chain(o.first_session..o.first_session + o.sessions)
         .collect();
     let mut next = 0usize;
